@@ -128,6 +128,9 @@ def c10():
     if before != after: R.fail("c10.original_dir_untouched", "original directory changed after restore with new_checkpoint_dir", dict(before=sorted(before), after=sorted(after)))
     if steps(nd) != [9] or r.checkpoint_frequency != 3 or r.enable_async_checkpointing is not False: R.fail("c10.overrides_effective", "overrides did not take effect for later saves", dict(steps_new=steps(nd), frequency=r.checkpoint_frequency))
     if same_state(state_of(s), st0, skip=("policy",)): R.fail("c10.overrides_keep_state", "overrides altered the restored state", dict(overrides=True))
+    # an override of 0 (= checkpointing disabled for the continued run) is an override like any other
+    listing = sorted(os.listdir(d)); r0 = VI.restore(d, checkpoint_frequency=0); R.case(("override_zero",), dict(checkpoint_frequency=0)); r0.solve(3); wait(r0)
+    if r0.checkpoint_frequency != 0 or sorted(os.listdir(d)) != listing: R.fail("c10.overrides_effective", "restore(checkpoint_frequency=0) is ignored: the restored solver keeps the saved frequency and writes into the original directory", dict(checkpoint_frequency_override=0, saved_frequency=2), dict(frequency=r0.checkpoint_frequency, listing=sorted(os.listdir(d))), dict(frequency=0, listing=listing))
     # error paths
     R.case(("errors",), None); e = os.path.join(base, "c10_empty"); os.makedirs(e)
     try: VI.restore(e); R.fail("c10.no_config_error", "restore() of a directory without config.yaml did not raise", dict(dir="empty"))
